@@ -545,9 +545,16 @@ def c20(tapes, params):
     ignore = g.choice([None, b'\n', b'\n '], 'ign')
     cut_last = g.chance(1, 3, 'cutlast')          # EOF in the middle of the last message
     got = []
+    got2 = []
+    svals2 = [gen_tnet_value(g, 200 + i, allow_null=False) for i in range(g.between(1, 3, 'nsv2'))] if g.chance(1, 2, 'sess2') else []
+    svals2 = [v for v in svals2 if not (isinstance(v, bytes) and len(v) > 2000)]
+    # the first session's consumer may stop after one message although more arrived in the same segment
+    early_stop = bool(svals2) and len(svals) >= 2 and g.chance(1, 2, 'earlystop')
+    if early_stop:
+        cut_last = False
     times = []
     sends = []
-    state = {'done': False, 'err': None}
+    state = {'done': False, 'err': None, 'err2': None}
 
     def server():
         lst = SimSocket(net)
@@ -560,15 +567,31 @@ def c20(tapes, params):
                 times.append(s.now)
                 if len(got) > 60000:
                     break
+                if early_stop and msg is not None:
+                    break           # the consumer has what it wanted; further (pipelined) input is abandoned
         except Exception as exc:        # noqa: BLE001
             state['err'] = '%s: %s' % (type(exc).__name__, exc)
+        # a second session of the same process (after the first ended, possibly inside a message): it must
+        # yield exactly its own messages -- nothing of the first session's input may be left anywhere
+        if svals2:
+            try:
+                conn2, addr2 = lst.accept()
+                for msg in tnet.tnet_from(conn2, addr2, timeout=None, latency=latency, ignore=ignore):
+                    got2.append(msg)
+                    if len(got2) > 1000:
+                        break
+            except Exception as exc:        # noqa: BLE001
+                state['err2'] = '%s: %s' % (type(exc).__name__, exc)
         state['done'] = True
 
     def client():
         c = SimSocket(net)
         s.block(Waiter(cond=lambda: 8008 in net.listeners, why='await-listen'))
         c.connect(('127.0.0.1', 8008))
-        for i, v in enumerate(svals):
+        if early_stop:
+            c.send(b''.join(tns.dump(v) for v in svals))        # everything in one segment
+            sends.append((s.now, 0))
+        for i, v in enumerate(svals if not early_stop else []):
             e = tns.dump(v)
             if ignore and g.draw(2, 'sep'):
                 e = e + ignore[:1] * (1 + g.draw(2, 'nsep'))
@@ -586,6 +609,15 @@ def c20(tapes, params):
                     s.sleep(gap)
         s.sleep(sch.choice([0.0, 0.2, 5.0], 'linger'))
         c.close()
+        if svals2:
+            c2 = SimSocket(net)
+            c2.connect(('127.0.0.1', 8008))
+            for v in svals2:
+                for p in chunkings(sch, tns.dump(v))[0]:
+                    if p:
+                        c2.send(p)
+            s.sleep(0.1)
+            c2.close()
 
     ts = s.spawn(server, 'tnet_server')
     tc = s.spawn(client, 'tnet_client')
@@ -598,6 +630,8 @@ def c20(tapes, params):
         # (a message cut by EOF may end the stream with an error; that is a way of yielding no value)
         violation('c20-socket-exception', 'tnet_from (timeout=%r latency=%r ignore=%r) raised %s' % (timeout, latency, ignore, state['err']))
     want = svals[:-1] if was_cut else svals
+    if early_stop:
+        want = svals[:1]
     msgs = [x for x in got if x is not None]
     nones = len(got) - len(msgs)
     stats['socket_values'] = len(msgs)
@@ -605,6 +639,12 @@ def c20(tapes, params):
     if [canon(x) for x in msgs] != [canon(x) for x in want]:
         violation('c20-socket-values', 'tnet_from (timeout=%r latency=%r ignore=%r cut_last=%s) yielded %r; sent %r' % (
             timeout, latency, ignore, cut_last, [repr(x)[:30] for x in msgs][:8], [repr(x)[:30] for x in want][:8]))
+    if svals2:
+        stats['socket_values'] += len(got2)
+        if state['err2'] or [canon(x) for x in got2] != [canon(x) for x in svals2]:
+            violation('c20-second-session', 'a second tnet_from session (after the first ended%s) yielded %r%s; sent %r' % (
+                ' inside a message' if was_cut else '', [repr(x)[:30] for x in got2][:6],
+                ' and raised ' + state['err2'] if state['err2'] else '', [repr(x)[:30] for x in svals2][:6]))
     if nones and timeout is None:
         violation('c20-spurious-none', 'tnet_from yielded None %d times although no timeout was requested' % nones)
     if timeout is not None and nones:
